@@ -166,6 +166,7 @@ def finish(pid, tier, seed, results, t0, extra, replayer_available=True):
     inconclusive = [r for r in results if r['status'] == 'inconclusive']
     errors = [r for r in results if r['status'] == 'error']
     seen = set()
+    pending = []
     for r in results:
         for k, v in enumerate(r.get('violations', [])):
             label = v['label']
@@ -175,23 +176,27 @@ def finish(pid, tier, seed, results, t0, extra, replayer_available=True):
             path = os.path.join(rdir, '%s.%d.json' % (safe, k))
             with open(path, 'w') as f:
                 json.dump(rec, f, indent=1, default=str)
-            rc, out = replay_in_fresh_process(pid, path)
-            if rc == 10:      # reproduced
-                kf = match_known(pid, label, known)
-                if kf is not None:
-                    known_hits.setdefault(kf['id'], [kf, 0])[1] += 1
-                    continue
-                n_viol += 1
-                key = (label,)
-                if key not in seen:
-                    seen.add(key)
-                    lines.append('VIOLATION property=%s replay=%s   (%s: %s)' % (pid, path, r['name'], label))
-                exit_code = EXIT_VIOLATION
-            else:
-                lines.append('HARNESS-ERROR property=%s counterexample did not reproduce on the real code: %s %s [%s]\n%s'
-                             % (pid, r['name'], label, path, out[-800:]))
-                if exit_code == EXIT_OK:
-                    exit_code = EXIT_HARNESS
+            pending.append((r, label, path))
+    from concurrent.futures import ThreadPoolExecutor
+    with ThreadPoolExecutor(max_workers=int(os.environ.get('VERIF_NPROC', '16'))) as tp:
+        outcomes = list(tp.map(lambda t: replay_in_fresh_process(pid, t[2]), pending))
+    for (r, label, path), (rc, out) in zip(pending, outcomes):
+        if rc == 10:      # reproduced
+            kf = match_known(pid, label, known)
+            if kf is not None:
+                known_hits.setdefault(kf['id'], [kf, 0])[1] += 1
+                continue
+            n_viol += 1
+            key = (label,)
+            if key not in seen:
+                seen.add(key)
+                lines.append('VIOLATION property=%s replay=%s   (%s: %s)' % (pid, path, r['name'], label))
+            exit_code = EXIT_VIOLATION
+        else:
+            lines.append('HARNESS-ERROR property=%s counterexample did not reproduce on the real code: %s %s [%s]\n%s'
+                         % (pid, r['name'], label, path, out[-800:]))
+            if exit_code == EXIT_OK:
+                exit_code = EXIT_HARNESS
     for kid, (kf, n) in known_hits.items():
         lines.append('KNOWN-FINDING: property=%s %s (%s; %d counterexample(s) reproduced)' % (pid, kf['what'], kid, n))
     for r in errors:
